@@ -203,6 +203,16 @@ func cmdUnit(args []string) int {
 		for _, m := range u.stale {
 			fmt.Println("  CONTRACT-STALE", m)
 		}
+		if *verbose {
+			var ab []string
+			for k := range e.abstracted {
+				ab = append(ab, k)
+			}
+			sort.Strings(ab)
+			for _, k := range ab {
+				fmt.Println("  abstracted:", k)
+			}
+		}
 		if nd != len(u.obls) || len(u.unsupported) > 0 || len(u.specErrors) > 0 || len(u.stale) > 0 {
 			rc = 1
 		}
@@ -499,7 +509,8 @@ func cmdCheck(args []string) int {
 		"slices have value semantics (no aliasing between slices sharing a backing array)",
 		"method receivers and pointer parameters not compared with nil are non-nil; fields never compared with nil in the module are non-nil",
 		"state not declared guarded_by is not subject to interference from other goroutines",
-		"calls into dependencies change repository state only through their arguments",
+		"calls into dependencies change repository state only through their arguments (all repository state is forgotten when a func value is passed to a dependency)",
+		"interfaces do not hold typed-nil pointers (successful type assertions to pointer types yield non-nil)",
 	}, cfg.Trusted...)
 	var assumptions []string
 	for _, x := range externs {
